@@ -64,6 +64,84 @@ def run_case(drv, cc, preds, history, want_spec=True):
     return out
 
 
+def abc_stream(chk, n_cases):
+    """Implementation-only oracle for class registrations made for ABCs that a probe class satisfies only VIRTUALLY
+    (structural `__subclasshook__`, nothing in its `__mro__`): outside the Lean model, whose `Facts.mro` is fixed per type.
+    Rule (property statement + functools.singledispatch): if exactly one registered ABC is the most specific one the
+    class satisfies, its latest hook applies; if the registered ABCs it satisfies are unrelated (ambiguous), no class
+    registration applies and the choice falls through to predicates / built-in behaviour -- never an exception."""
+    import collections.abc as cabc
+
+    from cattrs import BaseConverter, Converter
+
+    rng = chk.rng
+    ABCS = {"Sized": cabc.Sized, "Container": cabc.Container, "Iterable": cabc.Iterable, "Hashable": cabc.Hashable,
+            "Collection": cabc.Collection}
+    METHODS = {"Sized": ["__len__"], "Container": ["__contains__"], "Iterable": ["__iter__"], "Hashable": [],
+               "Collection": ["__len__", "__contains__", "__iter__"]}
+    SUBS = {"Collection": {"Sized", "Container", "Iterable"}}   # Collection is more specific than these
+    for ci in range(n_cases):
+        regs = rng.sample(sorted(ABCS), rng.randint(1, 3))
+        have = set(rng.sample(["__len__", "__contains__", "__iter__"], rng.randint(0, 3)))
+        ns = {m: (lambda self, *a: 0) for m in have}
+        if "__iter__" in have:
+            ns["__iter__"] = lambda self: iter(())
+        ns["__eq__"] = lambda self, o: type(o) is type(self)
+        if rng.random() < 0.5:
+            ns["__hash__"] = None          # not Hashable
+        else:
+            ns["__hash__"] = lambda self: 7
+        Probe = type(f"Abc{chk.seed}_{ci}", (), ns)
+        satisfied = [a for a in regs if issubclass(Probe, ABCS[a])]
+        # most specific satisfied registered ABCs
+        best = [a for a in satisfied if not any(a in SUBS.get(b, ()) for b in satisfied if b != a)]
+        for d in DIRS:
+            for klass in (Converter, BaseConverter):
+                conv = klass()
+                tags = {}
+                for i, a in enumerate(regs):
+                    tags[a] = 100 + i
+                    if d == UN:
+                        conv.register_unstructure_hook(ABCS[a], lambda v, t=100 + i: ("U", t))
+                    else:
+                        conv.register_structure_hook(ABCS[a], lambda v, _, t=100 + i: ("S", t))
+                with_pred = rng.random() < 0.5
+                if with_pred:
+                    if d == UN:
+                        conv.register_unstructure_hook_func(lambda t: t is Probe, lambda v: ("U", 999))
+                    else:
+                        conv.register_structure_hook_func(lambda t: t is Probe, lambda v, _: ("S", 999))
+                x = Probe()
+                try:
+                    r = conv.unstructure(x, unstructure_as=Probe) if d == UN else conv.structure("payload", Probe)
+                    out = ("ok", r)
+                except Exception as e:  # noqa: BLE001
+                    out = ("err", type(e).__name__, str(e)[:80])
+                chk.count(("abc", ci, d, klass.__name__))
+                chk.note("abc-stream:" + ("unique" if len(best) == 1 else "ambiguous" if len(best) > 1 else "none"))
+                case = {"ext": True, "registered": regs, "probe_methods": sorted(have), "hashable": ns["__hash__"] is not None,
+                        "dir": d, "converter": klass.__name__, "predicate_hook": with_pred, "got": repr(out)[:200]}
+                letter = "U" if d == UN else "S"
+                sat_hooks = [("ok", (letter, tags[a_])) for a_ in satisfied]
+                if len(satisfied) == 1:
+                    if out not in sat_hooks:
+                        chk.violation(f"C07 oracle (ABC stream): class hooks for {regs}, probe satisfies only {satisfied}: expected its hook, got {out!r}", case)
+                elif not satisfied:
+                    if with_pred and out != ("ok", (letter, 999)):
+                        chk.violation(f"C07 oracle (ABC stream): class hooks for {regs}, none satisfied by the probe: expected the predicate hook, got {out!r}", case)
+                    if out[0] == "ok" and isinstance(out[1], tuple) and out[1][:1] == (letter,) and out[1][1] in tags.values():
+                        chk.violation(f"C07 oracle (ABC stream): a class hook of an ABC the probe does not satisfy was applied: {out!r}", case)
+                else:
+                    # several registered ABCs are satisfied: functools.singledispatch picks the most specific one or declares
+                    # the dispatch ambiguous, in which case no class registration applies -- never an exception
+                    if out[0] == "err" and out[1] == "RuntimeError":
+                        chk.violation(f"C07 oracle (ABC stream): class hooks for {regs}, probe satisfies {satisfied}: dispatch raised {out!r} "
+                                      "instead of falling through", case)
+                    elif out not in sat_hooks and with_pred and out != ("ok", (letter, 999)):
+                        chk.violation(f"C07 oracle (ABC stream): class hooks for {regs}, probe satisfies {satisfied}: got {out!r}, expected one of "
+                                      "their hooks or the predicate hook", case)
+
+
 def spec_agrees(ctx, s_term, m_term):
     """`spec` gives the dispatched hook, the machine's `call` the call tree: a late built-in hook `builtin n`
     shows up as `made n t false children` in the call tree; everything else must coincide."""
@@ -170,6 +248,7 @@ def run(chk: framework.Check):
                          "decorator forms, both directions, overlapping and raising predicates) x {Converter, BaseConverter} x "
                          "{dict,tuple strategy} x fallback factories; every history probed on all universe types (also nested); "
                          "non-trivial = at least one registration; distinct by configuration+history text")
+    abc_stream(chk, 60 if quick else 600)
     chk.extra["probes"] = stats["probes"]
     chk.extra["correspondence_disagreements"] = len(corr_fail)
     drv.close()
